@@ -124,7 +124,9 @@ def public_attrs(obj):
     """Names and plain values of an object's public instance attributes."""
     out = {}
     for name, val in vars(obj).items():
-        if name.startswith("_"):
+        if name.startswith("_") and not name.startswith("__"):
+            # the library's own names; a name with two leading underscores
+            # set through the attribute interface is the user's
             continue
         out[name] = val
     return out
